@@ -112,3 +112,4 @@ Lemma quarter_annulus_sides : forall q r1 r2 y,
 Proof. intros. unfold qa_x, qa_y, B0, B1, B2, two. repeat split; ring. Qed.
 
 End Arcs.
+
